@@ -322,6 +322,12 @@ def check_repeated_reads(ns, errs):
     try:
         d1 = ns.get_result_dictionary()
         w1 = np.array(ns.log_posterior_weights, copy=True) if hasattr(ns, "log_posterior_weights") else None
+        # other public reads in between (effective sample size, evidence error) must not disturb anything
+        for attr in ("posterior_effective_sample_size", "log_evidence_error", "log_evidence", "information"):
+            try:
+                getattr(ns, attr)
+            except Exception:
+                pass
         d2 = ns.get_result_dictionary()
         w2 = np.array(ns.log_posterior_weights, copy=True) if hasattr(ns, "log_posterior_weights") else None
     except Exception as e:
